@@ -65,11 +65,24 @@ func edgeFacts(ph *ssa.Phi, i int, depth int) []Fact {
 	}
 	// the edge pred→φ-block itself may be one arm of an If in pred
 	if len(pred.Instrs) > 0 {
-		if ifi, ok := pred.Instrs[len(pred.Instrs)-1].(*ssa.If); ok && pred.Succs[0] != pred.Succs[1] {
-			if pred.Succs[0] == ph.Block() {
-				out = append(out, condFacts(ifi.Cond, true, depth+1)...)
-			} else if pred.Succs[1] == ph.Block() {
-				out = append(out, condFacts(ifi.Cond, false, depth+1)...)
+		if ifi, ok := pred.Instrs[len(pred.Instrs)-1].(*ssa.If); ok {
+			switch {
+			case pred.Succs[0] != pred.Succs[1]:
+				if pred.Succs[0] == ph.Block() {
+					out = append(out, condFacts(ifi.Cond, true, depth+1)...)
+				} else if pred.Succs[1] == ph.Block() {
+					out = append(out, condFacts(ifi.Cond, false, depth+1)...)
+				}
+			default:
+				// both arms lead straight here (`if c { x = a } else { x = b }` with the empty
+				// arms threaded away): the k-th entry of pred among the predecessors is its k-th arm
+				k := 0
+				for j := 0; j < i; j++ {
+					if ph.Block().Preds[j] == pred {
+						k++
+					}
+				}
+				out = append(out, condFacts(ifi.Cond, k == 0, depth+1)...)
 			}
 		}
 	}
